@@ -54,6 +54,7 @@ struct VBase {
   virtual std::string describe() = 0;
   virtual VBase* apply(const std::vector<std::string>& w) = 0;
   virtual int contig() = 0;
+  virtual std::string indexed(const std::vector<std::string>& w) = 0;   // `ix ...`: see drv_views_idx.h
 };
 
 inline std::string dump_changes() {
@@ -82,6 +83,13 @@ VBase* wrap(const Array<2,int>& a);
 VBase* wrap(const Array<3,int>& a);
 VBase* wrap(const Array<4,int>& a);
 VBase* wrap(const Array<5,int>& a);
+
+// integer-vector indexing (IndexedArray): defined in drv_views_idx*.cpp, ranks 1..4
+std::string ix_op(Array<1,int>& a, const std::vector<std::string>& w);
+std::string ix_op(Array<2,int>& a, const std::vector<std::string>& w);
+std::string ix_op(Array<3,int>& a, const std::vector<std::string>& w);
+std::string ix_op(Array<4,int>& a, const std::vector<std::string>& w);
+inline std::string ix_op(Array<5,int>&, const std::vector<std::string>&) { throw BadOp(); }
 
 // ------------------------------------------------------------------ operator()(...) dispatch
 enum { FAM_MIX = 0, FAM_INT = 1, FAM_END = 2 };
@@ -220,6 +228,7 @@ template <int R> struct V : VBase {
   explicit V(const Array<R,int>& x) : a(x) {}   // copy constructor: links, no copy
   int rank() const { return R; }
   int contig() { return a.is_contiguous() ? 1 : 0; }
+  std::string indexed(const std::vector<std::string>& w) { return ix_op(a, w); }
   std::string describe() {
     std::ostringstream os;
     os << "ok r=" << R << " d=";
